@@ -47,6 +47,13 @@ CODEC_WORDS = [bytes.fromhex("d0bd"),             # ﾐｽ      (= UTF-8 of U+04
                bytes.fromhex("815f")]             # U+FF3C FULLWIDTH REVERSE SOLIDUS
 
 
+# pairs of DIFFERENT strings with equal rustc_hash::FxHasher state (gen/fxpairs.py, verified at import): a string pool / cell
+# grouping keyed by a 64-bit hash instead of the string merges them (seed C18-10)
+import fxpairs
+FX_PAIRS = fxpairs.ALL_PAIRS
+FX_WORDS = [w for pr in FX_PAIRS for w in pr]
+
+
 def rand_string(rng, allow_empty=True):
     r = rng.random()
     if allow_empty and r < 0.08:
@@ -57,6 +64,8 @@ def rand_string(rng, allow_empty=True):
         return rng.choice(SJIS_WORDS)
     if r < 0.78:
         return rng.choice(CODEC_WORDS)
+    if r < 0.80:
+        return rng.choice(FX_WORDS)
     n = rng.randint(1, 12)
     return bytes(rng.choice(b"abcdefghijklmnopqrstuvwxyzABCDEFGHIJKLMNOPQRSTUVWXYZ0123456789_") for _ in range(n))
 
